@@ -123,11 +123,11 @@ def to_matrix(value: Union['AnyAngle', 'AnyMatrix', 'AnyVec', None]) -> 'Matrix 
 
 def format_float(x: float, places: int = 6) -> str:
     """Convert the specified float to a string, stripping off a .0 if it ends with that."""
-    # Add zero to make -0 positive
-    result = f'{x+0.0:.{places}f}'
+    result = f'{x:.{places}f}'
     if '.' in result:
         result = result.rstrip('0').rstrip('.')
-    return result
+    # Negative zero and tiny negative values round to '-0', strip the sign.
+    return '0' if result == '-0' else result
 
 
 def _coerce_float(value: Union[float, SupportsFloat, SupportsIndex]) -> float:
